@@ -72,6 +72,14 @@ CLAIMS = {
   text="(A) TLC model-checks parent, 3 member processes, the signalling queue and the single shared control pipe for every member-behaviour vector (answer / raise-or-unknown / crash before posting / crash after posting) and every interleaving: Agreement, NoLoserConsumesCtrl, RaisesOnlyIfNobodyAnswered, liveness SolveReturns and AnswerIfSomeoneAnswers under weak fairness; the model of the pinned code must yield the blocking counterexample. (B/C) TLC-enumerated schedules (behaviour vector x release order x members released while the winner is being selected x near-ties) are replayed on the real Portfolio with real forked processes whose completion is gated; blocking is decided structurally (parent inside solve, every member dead, queue empty); TLC validates verdict, error-instead-of-blocking, that only the winner serves control commands, and the model/value against the assertions with Eval, over one or two consecutive solves.",
   note="fake member solvers registered in the environment's factory; the gating wrappers around multiprocessing.Process/Queue only delay and log; get_model on a winner that died after posting is outside the property",
   tech=TECH + "design model checking of the process/queue/pipe protocol (safety + liveness) + TLC-enumerated schedules replayed on real forked processes, outcomes validated by TLC", ref="DESIGN.md 3 C19"),
+ "C07": dict(
+  text="TLC-generated formulas (all operators, indexed operators, negative/rational constants, strings with quotes, constant arrays, quantifiers, custom and parametric sorts) and variants whose symbols are renamed to names that need quoting or clash with the printer's own let names are printed by to_smtlib (tree and let-DAG form) and smtlibscript_from_formula+serialize; the produced TEXT is read by an independent SMT-LIB reader and validated by TLC against the meaning of SMT-LIB text defined in SmtLibSyntax.tla (elaboration per the standard: operator spellings/argument orders, indexed identifiers, parallel let, binder scoping, declarations before use): well-formed, symbols declared with their sorts, same sort, same value under every interpretation.",
+  note="harness/sexpr.py reader and SmtLibSyntax.tla elaboration are written from the SMT-LIB 2.6 standard, independent of pysmt.smtlib; Pow has no SMT-LIB spelling and is outside the claim; NoLogicAvailableError from script creation is an allowed answer",
+  tech=TECH + "TLC-generated formulas printed by pySMT, text validated by TLC against an SMT-LIB semantics in TLA+", ref="DESIGN.md 3 C07"),
+ "C08": dict(
+  text="TLC enumerates SMT-LIB scripts as S-expressions by construct family x syntactic variant (parallel/nested/shadowing let, binders, define-fun with static scoping and capture situations, numerals under different logics, literals in every notation, indexed operators, chainable/pairwise/left-/right-assoc operators, arrays, strings, annotations, push/pop, declare-sort/define-sort, OMT commands, malformed variants, truncations); the real SmtLibParser reads their text; TLC elaborates the same S-expressions with the SMT-LIB semantics of SmtLibSyntax.tla and validates: commands one-to-one, same sort and same value of every returned term under every interpretation, ill-formed text rejected, accepted-today baseline still accepted.",
+  note="SmtLibSyntax.tla elaboration; spec/gen/accept_baseline.json generated from the repaired tree; four genuine defects are recorded as known findings (sequential let, capture, undeclared symbol as string, duplicate let binder)",
+  tech=TECH + "TLC-enumerated SMT-LIB scripts parsed by pySMT, results validated by TLC against an SMT-LIB semantics in TLA+", ref="DESIGN.md 3 C08"),
 }
 NA_REASON = "check under construction in this round (planned with the same TLA+/TLC technique, see DESIGN.md)"
 
